@@ -100,6 +100,7 @@ pub fn scenario(ctx: &Ctx, idx: u64, check: &'static str, stream: &'static str) 
                 report.count("c11_runs_where_every_contact_goes_silent");
             } else {
                 plans[0].silent_at = None;
+                plans[0].unsendable = false;
             }
         }
         plans.sort_by_key(|p| (p.silent_at.is_some(), std::cmp::Reverse(p.silent_at)));
@@ -122,7 +123,7 @@ pub fn scenario(ctx: &Ctx, idx: u64, check: &'static str, stream: &'static str) 
         let max_lat = *[10 * MS, 100 * MS, 240 * MS].choose(&mut rng).unwrap();
         {
             let link = Link::uniform(MS, max_lat);
-            let unsendable: Vec<(SocketAddr, Micros)> = plans.iter().filter(|p| p.unsendable).map(|p| (p.addr, p.silent_at.unwrap_or(0))).collect();
+            let unsendable: Vec<(SocketAddr, Micros)> = plans.iter().filter(|p| p.unsendable).filter_map(|p| p.silent_at.map(|t| (p.addr, t))).collect();
             report.add("contacts_unsendable_once_silent", unsendable.len() as u64);
             net.set_fault(Box::new(move |rng, meta| {
                 if meta.from_socket && unsendable.iter().any(|(a, from)| *a == meta.dst && meta.now >= *from) {
